@@ -23,16 +23,17 @@ import (
 //   - the option fields are the fields of the context, or of a struct of the package the context holds (embedded or
 //     named, by value or pointer; promoted selectors denote the same field), assigned in functions of type Option;
 //   - the membership map is the context field of type map[osm.FeatureID][]…; the skippable set is the context
-//     field of type map[osm.WayID]struct{};
-//   - the interest predicate is the package function of type func(osm.Tags, map[string]string) bool;
+//     field of type map[osm.WayID]struct{} (or map[osm.WayID]bool);
+//   - the interest test is the package function of type func(osm.Tags, map[string]string) bool or the exported library
+//     method osm.Tags.AnyInteresting (no discount set);
 //   - the multipolygon builder is any function that has orb.MultiPolygon values (signature, variable or expression), an
 //     unexported pass-free function that reaches one through static calls, or a helper called only from such (c17_role.go);
 //   - the meta switch is the type switch over osm.Element with cases *osm.Node/*osm.Way/*osm.Relation, wherever it is;
 //   - feature emissions are appends to / literals of []*geojson.Feature and FeatureCollection.Append, element
 //     passes are ranges over osm.Relations/osm.Ways/osm.Nodes, found from the exported Convert through helpers.
 // Files: c17.go (registration, G1, G2, G4), c17_cfg.go (CFG facts, finite-domain evaluation, regions, effects),
-// c17_role.go (multipolygon builder by role), c17_g3.go, c17_g4more.go, c17_g5.go, c17_g6.go, c17_g7.go with the symbolic
-// interpreter c17_sym*.go, c17_benign.go, c17_benign2.go and c17_benign3.go
+// c17_role.go (multipolygon builder by role), c17_result.go (helper results under a valuation), c17_g3.go, c17_g4more.go, c17_g5.go, c17_g6.go, c17_g7.go with the symbolic
+// interpreter c17_sym*.go, c17_benign.go … c17_benign4.go
 // (behaviour-preserving variants and defects seeded into refactored shapes).
 
 func init() {
@@ -42,7 +43,7 @@ func init() {
 		Explanation: "Structural necessary conditions, decided for the whole call tree of osmgeojson.Convert (SSA + VTA call graph) and on the control-flow graphs of package osmgeojson: " +
 			"(G1) no reachable repository function stores, map-updates, appends in place, copies, deletes, sorts or reverses into memory whose type can be input memory (the types reachable from *osm.OSM) unless that memory was allocated in the same function, and none writes package-level state; " +
 			"(G2) no range over a map in the call tree appends to, or picks an element for, anything that outlives the loop; " +
-			"(G3) options only subtract: the value of an option field flows only into branch conditions (directly, through a local assigned once, a parameter or a one-line predicate helper); at every branch whose outcome depends on the option (three-valued evaluation of the condition with the option set and unset), the side taken when the option subtracts has no effect of its own and leaves only by nil/zero/unchanged-argument returns, and what it bypasses is, besides region-local state, only what the option documents (noID: stores of Feature.ID; noMeta: the meta property; noRelationMembership: the relations property, or updates of the membership map that are not bypassed when the member is a node; includeInvalidPolygons: only removes skips, and only inside the multipolygon builder); every store of Feature.ID / the meta / the relations property and every non-node-keyed read of the membership map is unreachable when the respective option is set; every option field is written only by its own Option constructor; " +
+			"(G3) options only subtract: the value of an option field flows only into branch conditions (directly, through a local assigned once, a parameter, or the result of a helper: a one-line predicate, a boolean result of a helper with several returns, the ok of a (value, ok) pair, or the nil-ness of a helper result, all evaluated by walking the helper under the valuation); at every branch whose outcome depends on the option (three-valued evaluation of the condition with the option set and unset), the side taken when the option subtracts has no effect of its own and leaves only by nil/zero/unchanged-argument returns, and what it bypasses is, besides region-local state, only what the option documents (noID: stores of Feature.ID; noMeta: the meta property; noRelationMembership: the relations property, or updates of the membership map that are not bypassed when the member is a node; includeInvalidPolygons: only removes skips, and only inside the multipolygon builder); every store of Feature.ID / the meta / the relations property and every non-node-keyed read of the membership map is unreachable when the respective option is set; every option field is written only by its own Option constructor; " +
 			"(G4) the node/way/relation cases of the meta type switch are identical up to the element type, the names of case-local variables and the order of independent map fills; " +
 			"(G5) every feature emission reachable from Convert lies in exactly one element pass (range over the input's relations, ways or nodes, in Convert or in a helper), every path through one iteration emits at most one feature (helpers counted with their per-call maximum), in the ways pass every emission is controlled by the test that the way is not in the skippable set, and the relation pass, which fills that set, is complete before the ways pass starts; " +
 			"(G6) a way is put into the skippable set only under the fact that the interest predicate is false for that way's own tags, and the discount set handed to the predicate is nil on every path reaching that guard (literal, local whose every assignment is examined, or helper parameter decided at the call sites); only inside the multipolygon builder may the discount set be non-nil, and only where no member other than an outer way can see it (the CFG is evaluated with <member>.Role != \"outer\": the guard is unreachable, or every non-nil assignment of the local carrying the set cannot execute or is overwritten before the guard, within one loop iteration); the old-style take-over of a relation by its single outer way is left to C16. " +
@@ -57,7 +58,7 @@ func init() {
 		Technique: "SSA type-based effect analysis with allocation-freshness over the VTA call tree of Convert; go/cfg guard facts, three-valued finite-domain evaluation of branch conditions under option valuations, exclusive/bypassed CFG regions with interprocedural effect summaries; type-directed structural comparison of sibling cases modulo local naming and commuting statements; path counting over go/cfg loop bodies with per-call emission maxima",
 		DesignRef: "DESIGN.md §5 C17",
 		NeedSSA:   true,
-		Benign:    append(append(append([]core.Mutant{}, c17Benign...), c17Benign2...), c17Benign3...),
+		Benign:    append(append(append(append([]core.Mutant{}, c17Benign...), c17Benign2...), c17Benign3...), c17Benign4...),
 		Rules: []*core.Rule{
 			// Floors count what a behaviour-preserving refactoring cannot remove:
 			// G1/G2: Convert, the four option setters and the exported osm/mputil API the conversion needs (Tags.Map, Tags.Find,
@@ -114,7 +115,7 @@ func init() {
 			{Name: "g5-skippable-not-skipped", File: "osmgeojson/convert.go", Find: "\t\tif _, skip := ctx.skippable[way.ID]; skip {\n\t\t\tcontinue\n\t\t}\n", Replace: "", ExpectRule: "G5", ExpectConstruct: "skippable@Convert ways"},
 			{Name: "g5-skippable-inverted", File: "osmgeojson/convert.go", Find: "if _, skip := ctx.skippable[way.ID]; skip {", Replace: "if _, skip := ctx.skippable[way.ID]; !skip {", ExpectRule: "G5", ExpectConstruct: "skippable@Convert ways"},
 			{Name: "g5-node-loop-appends-in-inner-loop", File: "osmgeojson/convert.go", Find: "\t\tfeature := ctx.nodeToFeature(node)\n\t\tif feature != nil {\n\t\t\tfeatures = append(features, feature)\n\t\t}\n", Replace: "\t\tfeature := ctx.nodeToFeature(node)\n\t\tfor range ctx.relationMember[node.FeatureID()] {\n\t\t\tfeatures = append(features, feature)\n\t\t}\n", ExpectRule: "G5", ExpectConstruct: "loop@Convert nodes"},
-		}, append(append(append([]core.Mutant{}, c17RefactoredMutants...), c17Mutants2...), c17Mutants3...)...),
+		}, append(append(append(append([]core.Mutant{}, c17RefactoredMutants...), c17Mutants2...), c17Mutants3...), c17Mutants4...)...),
 	})
 }
 
@@ -1250,7 +1251,10 @@ func c17LoadOptions(r *core.R) *c17Opt {
 			case namedPath(mt.Key()) == core.ModulePath+".FeatureID":
 				o.member = f
 			case namedPath(mt.Key()) == core.ModulePath+".WayID":
+				// a set of way ids: map[osm.WayID]struct{} or map[osm.WayID]bool
 				if s, ok := mt.Elem().Underlying().(*types.Struct); ok && s.NumFields() == 0 {
+					o.skip = f
+				} else if c17IsBool(mt.Elem()) {
 					o.skip = f
 				}
 			}
